@@ -23,7 +23,7 @@ import (
 	"verifharness/vlib"
 )
 
-const findVersionRace = "C38-version-getter-data-race"
+const findVersionRace = "C38-superblock-access-data-race"
 
 var accessRE = regexp.MustCompile(`(?m)^(Read|Write|Previous read|Previous write) at 0x[0-9a-f]+ by [^\n]*\n\s+(\S+)`)
 
@@ -41,11 +41,26 @@ func raceReports(logPrefix string) (known, other []string) {
 				continue
 			}
 			isKnown := false
+			var tops []string
 			for _, m := range accessRE.FindAllStringSubmatch(blk, -1) {
-				// Volume.Version() assigns v.SuperBlock.Version on every call; callers hold no lock or a read lock
-				if strings.HasSuffix(m[2], "storage.(*Volume).Version()") {
-					isKnown = true
+				tops = append(tops, m[2][strings.LastIndex(m[2], "/")+1:])
+			}
+			has := func(fn string) bool {
+				for _, x := range tops {
+					if x == fn {
+						return true
+					}
 				}
+				return false
+			}
+			// the listed finding: the volume's super block / volume info is accessed outside dataFileAccessLock:
+			// (1) Volume.Version() assigns v.SuperBlock.Version on every call; its callers hold no lock or a read lock
+			// (2) writeNeedle2 reads v.Ttl before taking the lock while CommitCompact's reload replaces v.SuperBlock
+			if has("storage.(*Volume).Version()") {
+				isKnown = true
+			}
+			if has("storage.(*Volume).writeNeedle2()") && (has("storage.(*Volume).readSuperBlock()") || has("storage.(*Volume).maybeLoadVolumeInfo()")) {
+				isKnown = true
 			}
 			if isKnown {
 				known = append(known, blk)
@@ -59,14 +74,17 @@ func raceReports(logPrefix string) (known, other []string) {
 
 func TestRaceLinearizable(t *testing.T) {
 	if !raceEnabled || os.Getenv("C38_RACE_CHILD") != "" {
-		vlib.Check(t, 200, 1000, linearizableCase)
-		if pfx := os.Getenv("C38_RACE_LOG"); pfx != "" {
-			known, other := raceReports(pfx)
-			for range known {
-				vlib.Excluded(findVersionRace)
+		// rapid ends the test with FailNow once the race detector has marked it as failed: defer
+		defer func() {
+			if pfx := os.Getenv("C38_RACE_LOG"); pfx != "" {
+				known, other := raceReports(pfx)
+				for range known {
+					vlib.Excluded(findVersionRace)
+				}
+				vlib.Note(fmt.Sprintf("race detector (shard %d): %d reports of the listed super block access race, %d other reports", vlib.Shard(), len(known), len(other)))
 			}
-			vlib.Note(fmt.Sprintf("race detector (shard %d): %d reports involving Volume.Version(), %d other reports", vlib.Shard(), len(known), len(other)))
-		}
+		}()
+		vlib.Check(t, 300, 1600, linearizableCase)
 		return
 	}
 	dir := vlib.TempDir()
@@ -94,10 +112,10 @@ func TestRaceLinearizable(t *testing.T) {
 		t.Fatalf("the property failed in the -race child process (%v):\n%s", runErr, text)
 	}
 	if len(other) > 0 {
-		t.Fatalf("the race detector reported %d data race(s) during the generated programs (first one below; %d more reports involve the listed Volume.Version() getter)\n%s", len(other), len(known), other[0])
+		t.Fatalf("the race detector reported %d data race(s) during the generated programs (first one below; %d more reports belong to the listed super block access race)\n%s", len(other), len(known), other[0])
 	}
 	if len(known) > 0 && !vlib.Known(findVersionRace) {
-		t.Fatalf("[%s] the race detector reported %d data race(s) on Volume.Version() during the generated programs (first one below)\n%s", findVersionRace, len(known), known[0])
+		t.Fatalf("[%s] the race detector reported %d data race(s) on the volume's super block / volume info during the generated programs (first one below)\n%s", findVersionRace, len(known), known[0])
 	}
 	if runErr != nil && len(known) == 0 {
 		t.Fatalf("the -race child process failed (%v):\n%s", runErr, text)
@@ -127,5 +145,5 @@ func TestFindingVersionGetterRace(t *testing.T) {
 	stored := v.SuperBlock.Version
 	v.SuperBlock.Version = orig
 	vlib.Finding(t, findVersionRace, stored != needle.Version1,
-		fmt.Sprintf("Volume.Version() is a getter that assigns v.SuperBlock.Version (field set to %d by hand, after one Version() call it holds %d, call returned %d); Store.WriteVolumeNeedle/DeleteVolumeNeedle call it before taking dataFileAccessLock and ReadVolumeNeedle under the shared RLock, so any two concurrent operations race on the field (go test -race: 'DATA RACE ... (*Volume).Version() volume.go:99')", needle.Version1, stored, got))
+		fmt.Sprintf("Volume.Version() is a getter that assigns v.SuperBlock.Version (field set to %d by hand, after one Version() call it holds %d, call returned %d); Store.WriteVolumeNeedle/DeleteVolumeNeedle call it before taking dataFileAccessLock and ReadVolumeNeedle under the shared RLock, so any two concurrent operations race on the field (go test -race: 'DATA RACE ... (*Volume).Version() volume.go:99'; same family: writeNeedle2 reads v.Ttl unlocked while CommitCompact's reload assigns v.SuperBlock)", needle.Version1, stored, got))
 }
